@@ -74,3 +74,50 @@ SPECS["C08"] = dict(
     trusted_base=["std::io::Read::chain semantics (first reader until it returns 0, then the second)"],
     assumptions=["64-bit usize; scripts shorter than usize::MAX answers; stream offsets below 2^64"],
 )
+
+SPECS["C06"] = dict(
+    title="StreamReader returns exactly the valid delimited records of any byte stream",
+    lean_modules=["Woodpile.Props.C06"],
+    theorems=[
+        "Woodpile.Props.C06.recordsAll_eq",
+        "Woodpile.Props.C06.recordsStd_eq",
+        "Woodpile.Props.C06.expectedSeq_spelled_out",
+        "Woodpile.Props.C06.splitIndep_of_spec",
+        "Woodpile.Props.C06.decodePieces_eq_spec",
+        "Woodpile.Props.C06.reader_keepgoing",
+        "Woodpile.Props.C06.reader_std_judge",
+        "Woodpile.Props.C06.reader_total",
+        "Woodpile.Props.C06.reader_schedule_independent",
+        "Woodpile.Props.C06.resync_segment",
+        "Woodpile.Props.C06.resync",
+    ],
+    families=[dict(name="reader", quick=3000, thorough=300000)],
+    technique="Lean 4 proof (per-chunk invariant of next_record_bytes over the C08 chunker model and the incremental decoder "
+              "model; all streams, well-behaved read schedules, block sizes, judge parameters) + model/implementation "
+              "correspondence + reference splitter/decoder oracle",
+    design_ref="DESIGN.md section 5, C06 (finding F1, observation O1)",
+    level_text=("Kernel-checked theorems about a Lean model of StreamReader::next_record_bytes (Woodpile.Stream.next: retry loop, "
+                "SkipSentinel/DecodeRecord/SkipRecord states, judge consultation after every chunk, decode_anchored through the "
+                "incremental decoder model Dec with production parameters, all five assertions as panics) on top of the C08 chunker "
+                "model, for every stream, every well-behaved read script, every io_block_size, arena state and clamp >= 2: with the "
+                "always-KeepGoing judge successive calls return exactly [(decoded, range) | non-empty FE FD-free segments of the "
+                "stream that Dec accepts] in order and then None forever; with chunk_judge(max, limit) the same filtered by decoded "
+                "size <= max and cut at the first segment start >= limit; never an error or a panic; results independent of "
+                "schedule/block size/arena; a delimiter-free valid piece between two delimiters is returned with its exact range "
+                "whatever bytes surround it (resync). The theorems assume split-independence of the incremental decoder "
+                "(SplitIndep prod), which follows from the C01/C07 refinement theorem Dec = Spec.decode (splitIndep_of_spec); under "
+                "it the per-segment decoder is Spec.decode (decodePieces_eq_spec). The model is tied to /repo by running the real "
+                "StreamReader and the compiled model on the same enumerated (all streams over {FE,FD,00,01,61} up to length 5/6 x "
+                "block sizes x read sizes; the crate's test vectors x limits; scripted judges) and random cases (valid records, torn "
+                "writes, corruption, garbage, delimiter runs, block-aligned delimiters, EINTR, hard errors) and diffing records, "
+                "ranges, last_sentinel_offset and reader positions; an independent Rust reference splitter + reference HCOBS decoder "
+                "oracle re-checks the property on the real results."),
+    level_note=("Trusted: Lean kernel + 3 standard axioms; the correspondence harness and its generators; the SplitIndep hypothesis "
+                "until the coordinator discharges it from the decoder refinement theorem. Arbitrary FnMut judges are modelled "
+                "(history-dependent) and exercised by correspondence (scripted verdict lists), but the theorems cover the two "
+                "judges the property names; a judge answering SkipRecord on an empty range makes the real code panic "
+                "(assert_eq!(range.is_empty(), state == SkipSentinel)), reproduced by model and harness alike (reported as an "
+                "observation). last_sentinel_offset is compared by correspondence and checked by the oracle, not yet a theorem."),
+    trusted_base=["std::io::Read::chain semantics", "SplitIndep prod (discharged by the C01/C07 decoder refinement theorem)"],
+    assumptions=["64-bit usize; limit_offset None = u64::MAX is modelled as 'never'; streams shorter than 2^64 bytes"],
+)
